@@ -1,0 +1,39 @@
+//go:build verif
+
+// Accessors for the runtime monitor of property C04 (/verif). They do not exist
+// without the build tag and are never called by the node itself.
+
+package core
+
+import "gitlab.com/aquachain/aquachain/trie"
+
+// VerifC04ResetLastWrite puts the package-level flush bookkeeping back to the
+// value it has in a freshly started process. The monitor simulates a process
+// restart by opening a new BlockChain in the same process; a real restart
+// starts with lastWrite == 0.
+func VerifC04ResetLastWrite() { lastWrite = 0 }
+
+// VerifC04LastWrite returns the flush bookkeeping value.
+func VerifC04LastWrite() uint64 { return lastWrite }
+
+// VerifC04TrieDB returns the trie node database the chain writes state through.
+func (bc *BlockChain) VerifC04TrieDB() *trie.Database { return bc.stateCache.TrieDB() }
+
+// VerifC04LocksFree reports, without blocking, whether the chain's three
+// mutexes are free. To be called from a quiescent point only (no chain method
+// running): there a false answer means a method returned with a lock held.
+func (bc *BlockChain) VerifC04LocksFree() (mu, chainmu, procmu bool) {
+	if bc.mu.TryLock() {
+		bc.mu.Unlock()
+		mu = true
+	}
+	if bc.chainmu.TryLock() {
+		bc.chainmu.Unlock()
+		chainmu = true
+	}
+	if bc.procmu.TryLock() {
+		bc.procmu.Unlock()
+		procmu = true
+	}
+	return
+}
